@@ -422,7 +422,11 @@ func constSym(v int64) *Sym { return &Sym{K: KConst, C: constant.MakeInt64(v)} }
 // CallSym builds the symbol of a (pure) call fn(args...), for stating
 // requirements about calls that the code itself makes.
 func CallSym(fn *ssa.Function, args ...*Sym) *Sym {
-	return &Sym{K: KCall, Fn: fn, Name: fnName(fn), Args: args, Idx: 0}
+	s := &Sym{K: KCall, Fn: fn, Name: fnName(fn), Args: args, Idx: 0}
+	if fn != nil && fn.Signature.Results().Len() == 1 {
+		s.Typ = fn.Signature.Results().At(0).Type()
+	}
+	return s
 }
 
 func FieldOf(base *Sym, f *types.Var) *Sym {
@@ -474,4 +478,8 @@ func (st FieldStore) FieldVal(fi *FuncInfo, f *types.Var) *Sym {
 		return resimplify(FieldOf(v, f))
 	}
 	return v
+}
+
+func constantUint64(c *types.Const) (uint64, bool) {
+	return constant.Uint64Val(c.Val())
 }
